@@ -97,6 +97,14 @@ CHECKS = {
                      "the contributed counts, every output slot written exactly once (write-counting target iterator), ASan. The workers do not synchronise between fork "
                      "and join, so the single TSan execution per input decides race freedom for all schedules; 20 scenarios are additionally explored over all interleavings.",
                 note="SC interleavings; key alphabet 3; stated tuple bounds; parallel path forced through the documented global switches"),
+    "C04": dict(engine="vsched+venum", technique=E3 + " with every case executed on the scheduler's deterministic default schedule (ASan; TSan on a reduced product); " + E1 + " (delay-bounded) for the schedule dimension", design="4/C04",
+                text="Real template code parallel_sample_sort_params<P> (what sort_strings_parallel runs) instantiated with 6 tiny-threshold parameter sets so that the whole "
+                     "job graph (sample/count/distribute/big-step recursion, sequential sample sort, mkqs, work sharing, LCP pass) runs on small inputs: every sequence of "
+                     "<=4/<=5 strings over 7 short strings plus all-equal/long-prefix/duplicate/prefix-chain/high-byte families up to n=40, x workers 1..3 x with/without LCP x "
+                     "C strings/std::string x sampler seeds: sorted permutation of the same string objects, exact LCPs, termination (deadlock = no runnable thread), ASan "
+                     "(work item touched after release), TSan. 9 drivers x LCP on/off are explored over every interleaving within the delay bound in ASan and TSan builds.",
+                note="SC interleavings; delay bound 1 (quick) / 2 (thorough); tiny thresholds stand in for the default ones (same code, different constants); default classifier only; "
+                     "scheduling points at synchronisation operations only, plain accesses are covered by TSan on the explored executions"),
 }
 
 NA = {}
